@@ -121,6 +121,106 @@ pub fn reduce(x: &U320) -> U320 {
     v
 }
 
+/// clamped r of a key
+pub fn clamped_r(key: &[u8; 32]) -> U320 {
+    let mut rb = [0u8; 16];
+    rb.copy_from_slice(&key[0..16]);
+    rb[3] &= 15;
+    rb[7] &= 15;
+    rb[11] &= 15;
+    rb[15] &= 15;
+    rb[4] &= 252;
+    rb[8] &= 252;
+    rb[12] &= 252;
+    U320::from_le_bytes(&rb)
+}
+
+/// canonical accumulator (in [0, p)) after absorbing `msg`, whose length must be a multiple of 16
+pub fn accumulator_after(key: &[u8; 32], msg: &[u8]) -> U320 {
+    let r = clamped_r(key);
+    let mut acc = U320::ZERO;
+    for chunk in msg.chunks(16) {
+        let mut nb = [0u8; 17];
+        nb[..chunk.len()].copy_from_slice(chunk);
+        nb[chunk.len()] = 1;
+        acc = reduce(&acc.add(&U320::from_le_bytes(&nb)).mul(&r));
+    }
+    acc
+}
+
+fn mulmod(a: &U320, b: &U320) -> U320 {
+    reduce(&a.mul(b))
+}
+
+/// a^(p-2) mod p: the inverse of a non-zero residue (p is prime)
+pub fn inverse(a: &U320) -> U320 {
+    let e = p().sub(&U320::small(2));
+    let mut result = U320::small(1);
+    let base = reduce(a);
+    for bit in (0..130).rev() {
+        result = mulmod(&result, &result);
+        if (e.0[bit / 32] >> (bit % 32)) & 1 == 1 {
+            result = mulmod(&result, &base);
+        }
+    }
+    result
+}
+
+/// a full 16-byte block m such that the accumulator equals `target` (mod p) right after (acc + m + 2^128) * r; None when
+/// r = 0 or when the solution is not below 2^128 (about three times in four for a random target: the caller varies the
+/// preceding block)
+pub fn solve_block(key: &[u8; 32], acc: &U320, target: &U320) -> Option<[u8; 16]> {
+    let r = clamped_r(key);
+    if reduce(&r).is_zero() {
+        return None;
+    }
+    let pp = p();
+    // want (acc + m + 2^128) = target * r^-1 (mod p)
+    let want = mulmod(&reduce(target), &inverse(&r));
+    let mut two128 = [0u32; 10];
+    two128[4] = 1;
+    let sub = reduce(&acc.add(&U320(two128)));
+    let m = if want.ge(&sub) { want.sub(&sub) } else { want.add(&pp).sub(&sub) };
+    if m.0[4..].iter().any(|x| *x != 0) {
+        return None;
+    }
+    let mut out = [0u8; 16];
+    for i in 0..4 {
+        out[4 * i..4 * i + 4].copy_from_slice(&m.0[i].to_le_bytes());
+    }
+    Some(out)
+}
+
+/// accumulator values worth forcing: next to the modulus, next to 2^128 and 2^130, residues with a second
+/// representative, limb patterns
+pub fn forced_target(sel: u64) -> U320 {
+    let pp = p();
+    let pow2 = |k: usize| {
+        let mut l = [0u32; 10];
+        l[k / 32] = 1 << (k % 32);
+        U320(l)
+    };
+    let d = U320::small((sel / 16 % 8) as u32);
+    match sel % 16 {
+        0 => pp.sub(&U320::small(1)).sub(&d),          // p-1-d
+        1 => d,                                         // 0..7 (0..4 have a second representative p..p+4)
+        2 => pow2(128).sub(&U320::small(1)).sub(&d),    // just below 2^128
+        3 => pow2(128).add(&d),                         // 2^128 + d
+        4 => pow2(129).sub(&U320::small(1)).sub(&d),
+        5 => pow2(129).add(&d),
+        6 => pow2(130).sub(&U320::small(6)).sub(&d),    // p-1-d again from the other side
+        7 => pow2(104).sub(&U320::small(1)),            // four 26-bit limbs saturated
+        8 => pow2(96).sub(&U320::small(1)),             // three 32-bit words saturated
+        9 => pow2(64).sub(&U320::small(1)).add(&pow2(128)),
+        10 => pow2(26 * ((sel / 16 % 5) as usize + 1)).sub(&U320::small(1)), // k 26-bit limbs saturated
+        11 => pow2(32 * ((sel / 16 % 4) as usize + 1)).sub(&U320::small(1)), // k 32-bit words saturated
+        12 => pow2(44 * ((sel / 16 % 2) as usize + 1)).sub(&U320::small(1)), // 44-bit limbs saturated
+        13 => pp.sub(&pow2(128)),                        // p - 2^128: adding a block marker wraps exactly
+        14 => pow2(130).sub(&pow2(128)).sub(&d),
+        _ => pow2(((sel / 16) % 130) as usize),
+    }
+}
+
 pub struct PolyResult {
     pub tag: [u8; 16],
     /// the accumulator is congruent to 0..4: the only residues that have a second representative
@@ -169,6 +269,28 @@ mod tests {
         ];
         let r = poly1305(&key, b"Cryptographic Forum Research Group");
         assert_eq!(r.tag, [0xa8, 0x06, 0x1d, 0xc1, 0x30, 0x51, 0x36, 0xc6, 0xc2, 0x2b, 0x8b, 0xaf, 0x0c, 0x01, 0x27, 0xa9]);
+    }
+    #[test]
+    fn solved_blocks_force_the_accumulator() {
+        let mut key = [0u8; 32];
+        for (i, b) in key.iter_mut().enumerate() {
+            *b = (i * 37 + 11) as u8;
+        }
+        let prefix = [0x42u8; 32];
+        let mut solved = 0;
+        for sel in 0..400u64 {
+            let target = forced_target(sel);
+            let acc = accumulator_after(&key, &prefix);
+            if let Some(m) = solve_block(&key, &acc, &target) {
+                let mut msg = prefix.to_vec();
+                msg.extend_from_slice(&m);
+                assert_eq!(accumulator_after(&key, &msg), reduce(&target), "sel {}", sel);
+                solved += 1;
+            }
+        }
+        assert!(solved > 40, "only {} of 400 targets solvable", solved);
+        let r = clamped_r(&key);
+        assert_eq!(reduce(&r.mul(&inverse(&r))), U320::small(1));
     }
     #[test]
     fn a3_vector5() {
